@@ -133,6 +133,37 @@ def mutants(a):
     return rc
 
 
+def refactors(a):
+    """behaviour-preserving patches: every check must stay silent"""
+    rc = 0
+    rd = os.path.join(VERIF, 'refactors')
+    for name in sorted(os.listdir(rd)):
+        if not name.endswith('.patch'):
+            continue
+        d = tempfile.mkdtemp(prefix='vref.')
+        try:
+            _copy_repo(d)
+            p = subprocess.run(['patch', '-p1', '-s', '-i', os.path.join(rd, name)], cwd=d, capture_output=True, text=True)
+            if p.returncode != 0:
+                print('%-36s PATCH-DOES-NOT-APPLY' % name)
+                rc = 2
+                continue
+            b = subprocess.run([sys.executable, os.path.join(VERIF, 'tools', 'baseline_check.py'), d], capture_output=True, text=True)
+            suite = b.stdout.splitlines()[0] if b.stdout else '?'
+            loud = []
+            for prop in PROPS:
+                env = dict(os.environ, VERIF_REPO=d, VERIF_SEED=str(a.seed))
+                q = subprocess.run([os.path.join(VERIF, 'check'), prop, '--tier', 'quick'], env=env, capture_output=True, text=True, timeout=3600)
+                if q.returncode != 0:
+                    loud.append('%s(exit %d)' % (prop, q.returncode))
+            print('%-36s suite[%s] %s' % (name, suite, 'all 18 checks silent' if not loud else 'ALARMS: ' + ' '.join(loud)))
+            if loud:
+                rc = 2
+        finally:
+            shutil.rmtree(d, ignore_errors=True)
+    return rc
+
+
 def main(name, a):
     if name.startswith('selftest-digests:'):
         return digests_cmd(name.split(':', 1)[1], a.n or 8, a.seed)
@@ -140,5 +171,7 @@ def main(name, a):
         return determinism(a)
     if name == 'selftest-mutants':
         return mutants(a)
+    if name == 'selftest-refactors':
+        return refactors(a)
     print('unknown self-test ' + name)
     return 2
